@@ -3,8 +3,9 @@
 Model:    lean/DaskModel/Model/BagOps.lean (accumulate, take, repartition incl. the binary64 cut points of split() and
           repartition(partition_size), from_sequence, fold/foldby (three variants)/topk/frequencies/distinct/sum/count/max/
           mean/var as instances of Bag.reduction, product, zip), Model/BagReduce.lean (the reduction tree),
-          Model/BagShuffle.lean (groupby_tasks staged routing, groupby_disk)
-Theorems: lean/DaskModel/Props/C48.lean
+          Model/BagShuffle.lean (groupby_tasks staged routing, groupby_disk incl. the block-by-block disk shuffle),
+          Model/BagLazify.lean (lazify_task / _count_references / the keep set on task-spec terms)
+Theorems: lean/DaskModel/Props/C48.lean, lean/DaskModel/Props/C48Lazify.lean
 Tie:      function level: every modelled operation on generated partitionings (empty partitions, split_every,
           max_branch forcing multi-stage shuffles) against the Lean model; property oracles against plain Python;
           API level: pipelines over ints/strings/tuples/dicts vs plain Python.
@@ -23,7 +24,7 @@ from sexp import Sym
 PROP = "C48"
 READY = True
 DRIVER = "dm_bag"
-LEAN_MODULES = ["DaskModel.Props.C48"]
+LEAN_MODULES = ["DaskModel.Props.C48", "DaskModel.Props.C48Lazify"]
 CASE_TIMEOUT_S = 60
 TECHNIQUE = "Lean 4 proof (invariant principle for the reduction tree, digit arithmetic of the staged shuffle, scan/partition lemmas, exact binary64 rounding for split) + differential correspondence"
 ASSUMPTIONS = [
@@ -884,6 +885,34 @@ def case_api(ctx, inp):
                 chk("to_dataframe(scalars) rows", df.compute(scheduler="sync")["v"].tolist(), [num(x) for x in seq])
             chk("to_dataframe npartitions", df.npartitions, len(parts))
             chk("to_dataframe rows per partition", df.map_partitions(len).compute(scheduler="sync").tolist(), [len(p) for p in parts])
+        elif op == "joint_alias":
+            # partitions that concat / repartition hand on unchanged are ALIASES of the input partition; computed
+            # together with something that reads them, the aliased (fused, lazified) partition must still be a list
+            import dask
+            m_ = b.map(num).map(lambda v: v + 1)
+            vals = [num(x) + 1 for x in seq]
+            c = db.concat([m_, m_.map(lambda v: v * 10)])
+            cw = vals + [v * 10 for v in vals]
+            got = dask.compute(c, c.count(), c.sum(), c.distinct().map_partitions(sorted), scheduler="sync")
+            chk("concat of lazily mapped bags computed with its reductions",
+                [list(got[0]), got[1], got[2], list(got[3])], [cw, len(cw), sum(cw), sorted(set(cw))])
+            got = dask.compute(c.count(), c, scheduler="sync")
+            chk("…reduction first", [got[0], list(got[1])], [len(cw), cw])
+            for mm in (len(parts) + 1, len(parts) + 2, 2 * len(parts) + 1):
+                r = m_.repartition(npartitions=mm)       # nsplits has 1s: those partitions are aliases
+                got = dask.compute(r, r.count(), r.sum(), scheduler="sync")
+                chk(f"repartition({mm}) of a lazily mapped bag computed with its reductions",
+                    [list(got[0]), got[1], got[2]], [vals, len(vals), sum(vals)])
+                lazify_invariant(ctx, r, "repartition to more partitions")
+            # the same aliased partition read twice by one task, also inside the renamed copy an Item keyword brings
+            chk("zip(c, c) through concat aliases", list(db.zip(c, c)), list(zip(cw, cw)))
+            r3 = m_.repartition(npartitions=len(parts) + 1)
+            chk("zip(r, r) through repartition aliases", list(db.zip(r3, r3)), list(zip(vals, vals)))
+            chk("count of zip(c, c) as a keyword of another map",
+                list(b.map(lambda x_, s_=0: (num(x_), s_), s_=db.zip(c, c).count())), [(num(x), len(cw)) for x in seq])
+            t1 = m_.take(2, npartitions=-1, compute=False, warn=False)
+            got = dask.compute(t1, t1.count(), db.concat([t1, t1]), scheduler="sync")
+            chk("take(compute=False) computed with consumers", [list(got[0]), got[1], list(got[2])], [vals[:2], len(vals[:2]), vals[:2] * 2])
         elif op == "same_bag_twice":
             # one lazily mapped bag read twice by a single task (zip / map / map_partitions / join / product / concat
             # of a bag with itself): after fusion the intermediate partition must not be a one-shot iterator
@@ -907,6 +936,15 @@ def case_api(ctx, inp):
             chk("self-join", sorted(one.join(one, lambda v: v % 4)), sorted((y, x_) for x_ in vals for y in vals if x_ % 4 == y % 4))
             chk("b2 and a reduction of b2 in one task", list(b2.map(lambda v, t=0: v - t, t=b2.max())) if vals else [],
                 [v - max(vals) for v in vals] if vals else [])
+            # an Item keyword is a renamed COPY of its graph (every task wrapped in an identity): the copy of a
+            # partition that several tasks read (here: of b2, read by the product) must stay a list there too
+            if vals and len(vals) <= 8:
+                p_ = b2.product(b2).map(lambda t_: t_[0] - t_[1])
+                pv = [u - w for pa in parts for pb in parts for u in [num(x) * 2 + 1 for x in pa] for w in [num(x) * 2 + 1 for x in pb]]
+                chk("product(b2, b2) with its own max as a keyword", list(p_.map(lambda v, t=0: v - t, t=p_.max())),
+                    [v - max(pv) for v in pv])
+                chk("a count over zip(b2, b2) as a keyword", list(b.map(lambda x_, s_=0: (num(x_), s_), s_=db.zip(b2, b2).count())),
+                    [(num(x), len(vals)) for x in seq])
         elif op == "reduction":
             chk("reduction(sum, sum)", b.map(num).reduction(sum, sum, split_every=se).compute(), sum(map(num, seq)))
             chk("reduction(list, concat)", b.reduction(list, lambda xs: [y for x in xs for y in x], split_every=se).compute(), seq)
@@ -915,6 +953,343 @@ def case_api(ctx, inp):
     ctx.branch(f"api:{op}")
     if 0 in sizes and len(sizes) > 1:
         ctx.branch("api:empty-partition")
+
+
+def case_program(ctx, inp):
+    """A random PROGRAM over several bags: a pool of bags grown by unary steps (map, filter, flatten, repartition,
+    accumulate, an Item as keyword, take(compute=False), …) and binary ones (zip / map / map_partitions / product /
+    concat / join over two bags of the pool — possibly the same one), then a random subset computed TOGETHER
+    (dask.compute) and one of them alone, partition by partition — against a plain-Python interpreter."""
+    import dask
+    import dask.bag as db
+    rng = random.Random(inp["seed"])
+    n = rng.randint(1, 5)
+    parts = [[rng.randint(-3, 9) for _ in range(rng.choice([0, 1, 2, 3, 4]))] for _ in range(n)]
+    pool = [(mk_bag(parts), [list(p) for p in parts])]
+    log = []
+    ops = ["map", "filter", "flatten", "mp", "repart", "accum", "zip", "map2", "mp2", "concat", "product", "pluckpair",
+           "remove", "distinct", "itemkw", "take_bag", "starmap", "join1", "itemkw2", "selfjoin",
+           "groupby", "foldby", "freq", "topk", "redbag", "unzip", "persist", "delayed", "mapitem"]
+    for _ in range(rng.randint(1, inp.get("steps", 7))):
+        i = rng.randrange(len(pool))
+        b, ref = pool[i]
+        flat = [v for p in ref for v in p]
+        op = rng.choice(ops)
+        if op == "map":
+            c = rng.randint(-2, 3)
+            nb, nr = b.map(lambda v, c=c: v * 2 + c), [[v * 2 + c for v in p] for p in ref]
+        elif op == "filter":
+            m = rng.randint(2, 3)
+            nb, nr = b.filter(lambda v, m=m: v % m == 0), [[v for v in p if v % m == 0] for p in ref]
+        elif op == "remove":
+            nb, nr = b.remove(lambda v: v % 3 == 1), [[v for v in p if v % 3 != 1] for p in ref]
+        elif op == "flatten":
+            nb, nr = b.map(lambda v: [v] * (v % 3)).flatten(), [[w for v in p for w in [v] * (v % 3)] for p in ref]
+        elif op == "mp":
+            nb, nr = b.map_partitions(lambda p: [v + 1 for v in p]), [[v + 1 for v in p] for p in ref]
+        elif op == "repart":
+            m = rng.randint(1, 6)
+            nb = b.repartition(npartitions=m)
+            nr = parts_of(nb)      # the partition structure is dask's choice; sequence and count are not
+            if [v for p in nr for v in p] != flat or len(nr) != m or nb.npartitions != m:
+                ctx.fail("repartition inside a program changed the sequence / the number of partitions",
+                         observed=[log, nr, nb.npartitions], expected=[flat, m])
+                return
+        elif op == "accum":
+            nb = b.accumulate(operator.add)
+            acc, nr, pos = list(itertools.accumulate(flat)), [], 0
+            for p in ref:
+                nr.append(acc[pos:pos + len(p)])
+                pos += len(p)
+        elif op in ("zip", "map2", "mp2", "product", "concat", "selfjoin"):
+            same = [j for j, (_, rr) in enumerate(pool) if [len(p) for p in rr] == [len(p) for p in ref]]
+            j = rng.choice(same) if op in ("zip", "map2") else rng.randrange(len(pool))
+            b2, ref2 = pool[j]
+            if op == "zip":
+                nb = db.zip(b, b2).map(lambda t: t[0] * 3 + t[1])
+                nr = [[a * 3 + c for a, c in zip(p, q)] for p, q in zip(ref, ref2)]
+            elif op == "map2":
+                nb, nr = db.map(lambda u, w: u - 2 * w, b, b2), [[a - 2 * c for a, c in zip(p, q)] for p, q in zip(ref, ref2)]
+            elif op == "mp2":
+                if len(ref) != len(ref2):
+                    continue
+                nb = db.map_partitions(lambda p, q: [sum(p) + 2 * sum(q)], b, b2)
+                nr = [[sum(p) + 2 * sum(q)] for p, q in zip(ref, ref2)]
+            elif op == "product":
+                if len(flat) * sum(map(len, ref2)) > 60 or len(ref) * len(ref2) > 20:
+                    continue
+                nb = b.product(b2).map(lambda t: t[0] * 5 + t[1])
+                nr = [[a * 5 + c for a in p for c in q] for p in ref for q in ref2]
+            elif op == "selfjoin":
+                if len(ref2) != 1 or len(flat) * len(ref2[0]) > 60:
+                    continue
+                nb = b.join(b2, lambda v: v % 3).map(lambda t: t[0] * 7 + t[1])
+                nr = [[y * 7 + x for x in p for y in ref2[0] if y % 3 == x % 3] for p in ref]
+            else:
+                nb, nr = db.concat([b, b2, b]), ref + ref2 + ref
+            log.append((op, i, j))
+        elif op == "pluckpair":
+            nb, nr = b.map(lambda v: (v, v + 1)).pluck(1), [[v + 1 for v in p] for p in ref]
+        elif op == "distinct":
+            nb, nr = b.distinct().map_partitions(sorted), [sorted(set(flat))]
+        elif op in ("itemkw", "itemkw2"):
+            if not flat:
+                continue
+            if op == "itemkw":
+                nb, nr = b.map(lambda v, t=0: v - t, t=b.max()), [[v - max(flat) for v in p] for p in ref]
+            else:     # the Item comes from ANOTHER bag of the pool
+                j = rng.randrange(len(pool))
+                b2, ref2 = pool[j]
+                tot = sum(v for p in ref2 for v in p)
+                nb, nr = b.map(lambda v, t=0: v + t, t=b2.sum()), [[v + tot for v in p] for p in ref]
+        elif op == "take_bag":
+            k = rng.randint(0, 4)
+            nb, nr = b.take(k, npartitions=-1, compute=False, warn=False), [flat[:k]]
+        elif op == "starmap":
+            nb, nr = b.map(lambda v: (v, 2)).starmap(lambda a, c: a * c), [[v * 2 for v in p] for p in ref]
+        elif op == "groupby":
+            g_ = b.groupby(lambda v: v % 3, shuffle="tasks", max_branch=rng.choice([None, 2, 3]))
+            g_ = g_.map(lambda kv: (kv[0], sorted(kv[1]))).map_partitions(sorted)
+            d_ = collections.defaultdict(list)
+            for v in flat:
+                d_[v % 3].append(v)
+            got_ = parts_of(g_)
+            if sorted(tuple(x) for p in got_ for x in map(lambda kv: (kv[0], tuple(kv[1])), p)) != \
+                    sorted((k_, tuple(sorted(v))) for k_, v in d_.items()):
+                ctx.fail("groupby inside a program differs from the Python groupby", observed=[log, got_], expected=dict(d_))
+                return
+            nb, nr = g_.map(lambda kv: kv[0] * 100 + sum(kv[1])), [[k_ * 100 + sum(v) for k_, v in p] for p in got_]
+        elif op == "foldby":
+            nb = b.foldby(lambda v: v % 3, operator.add, 0, operator.add, 0, split_every=rng.choice([None, 2, 3]))
+            nb = nb.map_partitions(sorted).map(lambda kv: kv[0] * 100 + kv[1])
+            d_ = {}
+            for v in flat:
+                d_[v % 3] = d_.get(v % 3, 0) + v
+            nr = [[k_ * 100 + t for k_, t in sorted(d_.items())]]
+        elif op == "freq":
+            nb = b.frequencies(split_every=rng.choice([None, 2])).map_partitions(sorted).map(lambda kv: kv[0] * 100 + kv[1])
+            nr = [[k_ * 100 + c for k_, c in sorted(collections.Counter(flat).items())]]
+        elif op == "topk":
+            k = rng.randint(0, 4)
+            nb, nr = b.topk(k, split_every=rng.choice([None, 2])), [sorted(flat, reverse=True)[:k]]
+        elif op == "redbag":
+            from dask.bag.core import Bag as _Bag
+            nb = b.reduction(lambda p: [sum(p)], lambda xs: [sum(x[0] for x in xs)], out_type=_Bag, split_every=rng.choice([None, 2]))
+            nr = [[sum(flat)]]
+        elif op == "unzip":
+            u1, u2 = b.map(lambda v: (v, v * 2)).unzip(2)
+            nb, nr = db.zip(u1, u2).map(sum), [[v * 3 for v in p] for p in ref]
+        elif op == "persist":
+            nb, nr = b.persist(scheduler="sync"), ref
+        elif op == "delayed":
+            nb, nr = db.from_delayed(b.to_delayed()), ref
+        elif op == "mapitem":
+            nb, nr = db.map(lambda v, t: v + t, b, b.count()), [[v + len(flat) for v in p] for p in ref]
+        else:
+            other = [0, 1, 2, 3]
+            nb = b.join(other, lambda v: v % 4).map(lambda t: t[0] * 10 + t[1])
+            nr = [[y * 10 + x for x in p for y in other if y % 4 == x % 4] for p in ref]
+        if op not in ("zip", "map2", "mp2", "product", "concat", "selfjoin"):
+            log.append((op, i))
+        pool.append((nb, nr))
+    idx = [rng.randrange(len(pool)) for _ in range(rng.randint(1, 3))]
+    try:
+        res = dask.compute(*[pool[k][0] for k in idx], scheduler="sync")
+        for k, r in zip(idx, res):
+            want = [v for p in pool[k][1] for v in p]
+            if list(r) != want:
+                ctx.fail("a bag of the program computed together with others differs from the plain-Python interpreter",
+                         observed=[log, k, list(r)], expected=want)
+        k = idx[0]
+        alone = parts_of(pool[k][0])
+        if alone != pool[k][1]:
+            ctx.fail("a bag of the program computed alone differs partition by partition", observed=[log, k, alone],
+                     expected=pool[k][1])
+        tot = pool[k][0].sum().compute(scheduler="sync")
+        if tot != sum(v for p in pool[k][1] for v in p):
+            ctx.fail("sum of a bag of the program differs", observed=[log, k, tot])
+    except Exception as e:
+        ctx.fail(f"program raised {type(e).__name__}: {e}", observed=[log, repr(e)[:200]])
+    for o in {x[0] for x in log}:
+        ctx.branch("program:" + o)
+    if any(len(x) == 3 and x[1] == x[2] for x in log):
+        ctx.branch("program:binary-op-on-the-same-bag")
+    if len(idx) > 1:
+        ctx.branch("program:joint-compute")
+
+
+
+# ----------------------------------------------------------------------------------------------
+# bag optimize: lazify_task on task-spec terms (function level, vs Model/BagLazify.lean)
+# ----------------------------------------------------------------------------------------------
+
+def _lz_build(term, key=None):
+    """A term of the Lean model (`Node`) as a real task-spec object."""
+    import operator as _op
+    import dask.bag.core as bc
+    from dask._expr import ProhibitReuse
+    from dask._task_spec import Alias, DataNode, List, Task, TaskRef, _execute_subgraph
+    t = term[0]
+    if t == "ref":
+        return TaskRef(("k", term[1]))
+    if t == "data":
+        return DataNode(key, 7)
+    if t == "alias":
+        return Alias(key if key is not None else ("anon", term[1]), ("k", term[1]))
+    if t == "lst":
+        return List(*[_lz_build(a) for a in term[1:]])
+    if t == "call":
+        head, args = term[1], [_lz_build(a) for a in term[2:]]
+        func = {"reify": bc.reify if len(args) % 2 else list, "ident": ProhibitReuse._identity,
+                "lazy": bc.map_chunk if len(args) % 2 else filter, "other": zip if len(args) > 1 else _op.neg}[head]
+        return Task(key, func, *args)
+    out, deps, entries = term[1], term[2], term[3:]
+    inner = {("k", k): _lz_build(n, key=("k", k)) for k, n in entries}
+    return Task(key, _execute_subgraph, inner, ("k", out), tuple(("k", d) for d in deps), *[TaskRef(("k", d)) for d in deps])
+
+
+def _lz_unbuild(obj):
+    import dask.bag.core as bc
+    from dask._expr import ProhibitReuse
+    from dask._task_spec import Alias, DataNode, List, Task, TaskRef, _execute_subgraph
+    if isinstance(obj, TaskRef):
+        return ["ref", obj.key[1]]
+    if isinstance(obj, Alias):
+        return ["alias", obj.target[1]]
+    if isinstance(obj, DataNode):
+        return ["data"]
+    if isinstance(obj, List) or (isinstance(obj, Task) and getattr(obj.func, "__name__", "") == "to_container"):
+        return ["lst"] + [_lz_unbuild(a) for a in obj.args]
+    if isinstance(obj, Task):
+        if obj.func is _execute_subgraph:
+            inner, outkey, inkeys = obj.args[0], obj.args[1], obj.args[2]
+            return ["sub", outkey[1], [d[1] for d in inkeys]] + [[k[1], _lz_unbuild(v)] for k, v in inner.items()]
+        head = ("reify" if obj.func in (list, bc.reify) else "ident" if obj.func is ProhibitReuse._identity
+                else "lazy" if obj.func in (bc.map_chunk, filter) else "other")
+        return ["call", head] + [_lz_unbuild(a) for a in obj.args]
+    raise TypeError(f"unexpected object in a lazified task: {obj!r}")
+
+
+def _lz_sym(term):
+    """nested lists with bare symbols for the s-expression protocol"""
+    if isinstance(term, list):
+        return [Sym(x) if isinstance(x, str) else _lz_sym(x) for x in term]
+    return term
+
+
+def _lz_head_is_list(term):
+    while term[0] == "call" and term[1] == "ident" and len(term) == 3:
+        term = term[2]
+    return term[0] == "call" and term[1] == "reify"
+
+
+def case_lazify(ctx, inp):
+    """dask.bag.core.lazify_task(task, start) on a task-spec term vs the Lean model (structure of the result), plus the
+    safety clause directly: in a fused task every inner key that is the output, is read more than once, or is the
+    alias target of such a key, and whose value was a list, still has a list."""
+    import dask.bag.core as bc
+    term, start = inp["term"], inp["start"]
+    task = _lz_build(term, key=("k", 99))
+    got = _lz_unbuild(bc.lazify_task(task, start))
+    ctx.eq("lazify_task", ctx.lean(Sym("lazify"), start, _lz_sym(term)), _lz_sym(got))
+    if start and _lz_head_is_list(term) and not _lz_head_is_list(got):
+        ctx.fail("lazify_task(start=True) removed the list/reify at the head of a key's task: the key now holds a one-shot iterator",
+                 observed=got, expected=term)
+
+    def walk(before, after):
+        if before[0] == "sub" and after[0] == "sub":
+            out, entries = before[1], {k: n for k, n in before[3:]}
+            after_entries = {k: n for k, n in after[3:]}
+            counts = collections.Counter()
+
+            def count(n):
+                if n[0] == "ref":
+                    counts[n[1]] += 1
+                elif n[0] == "alias":
+                    counts[n[1]] += 1
+                elif n[0] == "sub":
+                    for d in n[2]:
+                        counts[d] += 1
+                    for _, m in n[3:]:
+                        count(m)
+                elif n[0] in ("lst", "call"):
+                    for m in n[(1 if n[0] == "lst" else 2):]:
+                        count(m)
+            for n in entries.values():
+                count(n)
+            for k in entries:
+                ctx.eq("_count_references", ctx.lean(Sym("lazifyrefs"), k, _lz_sym(before)), counts[k])
+            must = {out} | {k for k in entries if counts[k] > 1}
+            changed = True
+            while changed:
+                changed = False
+                for k in list(must):
+                    n = entries.get(k)
+                    while n is not None and n[0] == "call" and n[1] == "ident" and len(n) == 3:
+                        n = n[2]
+                    if n is not None and n[0] == "alias" and n[1] not in must:
+                        must.add(n[1])
+                        changed = True
+            keep = ctx.lean(Sym("lazifykeep"), out, *[[k, _lz_sym(n)] for k, n in before[3:]])
+            ctx.eq("keys that keep their list (keepSet ∩ inner keys)", sorted(set(keep) & set(entries)), sorted(must & set(entries)))
+            for k in must & set(entries):
+                if _lz_head_is_list(entries[k]) and not _lz_head_is_list(after_entries.get(k, ["data"])):
+                    ctx.fail("lazify_task: an inner key of a fused task that can be read more than once (or is the output / "
+                             "an alias target of such a key) lost its list", observed=[k, after_entries.get(k)], expected=entries[k])
+            if len(must) > 1 + sum(1 for k in entries if counts[k] > 1 and k != out):
+                ctx.branch("lazify:kept-through-an-alias")
+            if any(counts[k] > 1 for k in entries):
+                ctx.branch("lazify:inner-key-read-more-than-once")
+    walk(term, got)
+    if '"ident"' in repr(term).replace("'", '"'):
+        ctx.branch("lazify:identity-wrapper")
+    if got != term:
+        ctx.branch("lazify:something-stripped")
+    ctx.branch("lazify")
+
+
+def gen_lazify_term(rng, depth=0):
+    """A fused task the way bag graphs produce them (a chain whose nodes refer to earlier keys, aliases, identity
+    wrappers of copied graphs, keys read twice), or a plain nested task."""
+    def lazy_of(r):
+        return ["call", "lazy", ["data"], r]
+
+    def node(i, prev):
+        r = ["ref", rng.choice(prev)]
+        c = rng.random()
+        if c < 0.25:
+            n = ["call", "reify", lazy_of(r)]
+        elif c < 0.35:
+            n = lazy_of(r)
+        elif c < 0.5:
+            n = ["alias", rng.choice(prev)]
+        elif c < 0.7:
+            a, b = rng.choice(prev), rng.choice(prev + prev[-1:])
+            n = ["call", "reify", ["call", "other", ["ref", a], ["ref", b]]]
+        elif c < 0.8:
+            n = ["call", "reify", ["call", "lazy", ["data"], ["call", "reify", lazy_of(r)]]]      # nested reify: stripped
+        elif c < 0.88:
+            n = ["call", "other", ["lst", r, ["ref", rng.choice(prev)]]]
+        elif c < 0.94 and depth < 1:
+            n = gen_lazify_term(rng, depth + 1)
+        else:
+            n = ["call", "reify", ["lst", r, ["data"]]]
+        if rng.random() < 0.25:
+            n = ["call", "ident", n]
+        return n
+
+    if depth == 0 and rng.random() < 0.15:
+        t = ["call", "reify", lazy_of(["ref", 9])]
+        for _ in range(rng.randint(0, 3)):
+            t = ["call", rng.choice(["ident", "reify", "other", "lazy"]), t]
+        return t
+    n = rng.randint(1, 6)
+    entries, prev = [], [9]
+    for i in range(n):
+        entries.append([i, node(i, prev)])
+        prev.append(i)
+    out = n - 1 if rng.random() < 0.85 else rng.randrange(n)
+    return ["sub", out, [9]] + entries
 
 
 def _refcount(obj, counts):
@@ -951,6 +1326,16 @@ def lazify_invariant(ctx, bag, what):
             for v in sub.values():
                 _refcount(v, counts)
             nfused += 1
+            # the output may be an alias (chain) of an inner key: that key IS the output and must be a list
+            tgt = outkey
+            while type(sub.get(tgt)).__name__ == "Alias" and sub[tgt].target in sub and sub[tgt].target != tgt:
+                tgt = sub[tgt].target
+            if tgt != outkey:
+                ctx.branch("lazify:output-is-an-alias-of-an-inner-key")
+                v = sub[tgt]
+                if isinstance(v, Task) and getattr(v.func, "__name__", "") in ("map_chunk", "filter", "map", "concat", "starmap_chunk"):
+                    ctx.fail(f"{what}: the fused task's output aliases the inner key {str(tgt)[:40]} whose value is a bare lazy "
+                             "iterator: the partition is a one-shot iterator", observed=v.func.__name__)
             for k, v in sub.items():
                 if k != outkey and counts[k] > 1 and isinstance(v, Task) and v.func not in (list, bc.reify):
                     if getattr(v.func, "__name__", "") in ("map_chunk", "filter", "map", "concat", "starmap_chunk", "random_sample"):
@@ -1025,7 +1410,7 @@ def case_tree(ctx, inp):
     _t(ctx, inp)
 
 
-CASES = {"split": case_split, "repartsize": case_repartsize, "stats": case_stats,
+CASES = {"lazify": case_lazify, "program": case_program, "split": case_split, "repartsize": case_repartsize, "stats": case_stats,
          "from_sequence": case_from_sequence, "tree": case_tree, "accumulate": case_accumulate, "take": case_take, "repartition": case_repartition, "reduce": case_reduce,
          "stagesk": case_stagesk, "digits": case_digits, "groupby_tasks": case_groupby_tasks,
          "groupby_api": case_groupby_api, "product_zip": case_product_zip, "api": case_api}
@@ -1048,7 +1433,7 @@ def gen_parts(rng, maxparts=9, maxlen=5, lo=-4, hi=9):
 
 API_OPS = ["map", "starmap", "filter", "map_partitions", "pluck", "flatten", "distinct", "frequencies", "topk", "stats",
            "foldby", "groupby", "join", "accumulate", "take", "repartition", "from_sequence", "fold_set", "reduction",
-           "multi_consumer", "pipeline", "pipeline", "pipeline", "foldby_joint", "delayed", "same_bag_twice"]
+           "multi_consumer", "pipeline", "pipeline", "pipeline", "foldby_joint", "delayed", "same_bag_twice", "joint_alias"]
 
 
 def generate(ctx):
@@ -1059,6 +1444,7 @@ def generate(ctx):
     yield "accumulate", {"parts": [[], [1, 2]], "op": "add", "init": None}
     yield "repartition", {"parts": [[i] for i in range(15)], "m": 11}
     yield "api", {"op": "same_bag_twice", "kind": "int", "sizes": [3, 0, 2], "seed": 1, "se": None, "k": 0, "m": 1, "mb": None, "nout": None}
+    yield "api", {"op": "joint_alias", "kind": "int", "sizes": [3, 3], "seed": 2, "se": None, "k": 0, "m": 1, "mb": None, "nout": None}
     ndisk = [0]
     for n, m in ((15, 11), (15, 13), (26, 23), (29, 25), (30, 11)):   # int(i*(n/m)) != i*n//m
         yield "repartition", {"parts": [[i] for i in range(n)], "m": m}
@@ -1084,6 +1470,18 @@ def generate(ctx):
                 inp["disk"] = "default-blocksize"
                 inp["sizes"] = sizes[:2]
         yield "api", inp
+    for _ in range(ctx.n(220, 4000)):
+        yield "program", {"seed": rng.getrandbits(40)}
+    # the terms of the four lazify defects, then random fused tasks
+    for term in (["sub", 1, [9], [0, ["call", "reify", ["call", "lazy", ["ref", 9]]]], [1, ["call", "reify", ["call", "other", ["ref", 0], ["ref", 0]]]]],
+                 ["sub", 1, [9], [0, ["call", "reify", ["call", "lazy", ["ref", 9]]]], [1, ["alias", 0]]],
+                 ["sub", 2, [9], [0, ["call", "reify", ["call", "lazy", ["ref", 9]]]], [1, ["alias", 0]],
+                  [2, ["call", "reify", ["call", "other", ["ref", 1], ["ref", 1]]]]],
+                 ["call", "ident", ["call", "reify", ["call", "lazy", ["ref", 9]]]],
+                 ["sub", 1, [9], [0, ["call", "ident", ["call", "reify", ["call", "lazy", ["ref", 9]]]]], [1, ["call", "ident", ["alias", 0]]]]):
+        yield "lazify", {"term": term, "start": True}
+    for _ in range(ctx.n(400, 6000)):
+        yield "lazify", {"term": gen_lazify_term(rng), "start": rng.random() < 0.7}
     for i in range(ctx.n(3, 60)):
         yield "api", {"op": "to_dataframe", "kind": ["dict", "tuple", "int"][i % 3],
                       "sizes": [rng.choice([0, 1, 2, 3]) for _ in range(rng.randint(1, 4))] + [1],
@@ -1194,9 +1592,14 @@ LEVEL_TEXT = (
     "completeness; accumulate = itertools.accumulate for every binop; take; repartition(npartitions) keeps the sequence and yields exactly "
     "the requested number of partitions — fewer: integer boundaries, more: with the REAL binary64 cut points int(len/k*i) of split() "
     "modelled exactly (split_den, repartition_more_ieee); repartition(partition_size) for any memory usages (repartition_size_den); "
-    "from_sequence (sizes, count, npartitions bound); product (multiset), zip, concat, join, map/filter/remove/flatten/pluck/starmap. "
+    "from_sequence (sizes, count, npartitions bound); product (multiset), zip, concat, join, map/filter/remove/flatten/pluck/starmap; "
+    "bag optimize/lazify (Props/C48Lazify): the repaired lazify_task transliterated on task-spec terms, lazify_sub_safe — in a fused task "
+    "the output, every key read more than once and every alias target of such a key keeps its list (closure fixpoint proved), "
+    "lazify_top_keeps_list also under the identity wrappers of copied graphs; the four earlier states of the code are refuted on the "
+    "graphs of the defects found (all repaired in /repo). "
     "Validated only (API-level differential): the final float formula of mean/var/std, to_dataframe, to_delayed/from_delayed, "
-    "optimize/lazify (multi-consumer and joint-compute cases), partd files of the disk shuffle, iter_chunks of repartition_size.")
+    "the iterator semantics behind lazify and fuse_linear_task_spec (random DAG programs with joint compute), partd files of the disk "
+    "shuffle, iter_chunks of repartition_size.")
 LEVEL_NOTE = (
     "Trusted: Lean kernel + standard axioms; the correspondence harness; toolz kernels on one partition (groupby, reduceby, merge_with, "
     "unique, topk, partition_all) as reference semantics; partd; tokenize as the hash of groupby keys; CPython binary64 arithmetic "
